@@ -285,7 +285,11 @@ def run(ctx):
             toks = T.by_stream[s]
             for i, tk in enumerate(toks):
                 if tk.kind == "interp" and tk.ty in USER_CALLABLE_TYPES:
-                    n_call += 1
+                    # a template shared through a private helper stands for each use of the helper
+                    uses = 1
+                    if b.kind in ("Fn", "AssocFn") and str(b.raw.get("vis", "")).startswith("Restricted") and not b.key.endswith("::to_tokens"):
+                        uses = max(1, sum(1 for c in gens for _, t_ in c.calls() if mir.callee_of(t_) == b.key))
+                    n_call += uses
                     # must be the sole content of a parenthesised group that directly follows `identity :: < fn … >`
                     only = len(toks) == 1
                     parent_ok = False
